@@ -1,7 +1,7 @@
 import json, re, subprocess, time, os
 VERIF_ERR = ('postcondition not satisfied', 'precondition not satisfied', 'invariant not satisfied', 'assertion failed',
              'decreases not satisfied', 'recommendation not met', 'possible arithmetic underflow/overflow', 'possible division by zero',
-             'loop invariant', 'cannot show', 'could not prove', 'possible bit shift')
+             'loop invariant', 'cannot show', 'could not prove', 'possible bit shift', 'unable to prove post-condition of closure', 'unable to prove pre-condition of closure')
 def run(path, timeout=600, rlimit=None):
     cmd = ['verus', path, '--output-json', '--time', '--multiple-errors', '50']
     if rlimit: cmd += ['--rlimit', str(rlimit)]
